@@ -163,12 +163,19 @@ def verdict(st, nm):
 
 def real_sequences(ctx, case):
     """the same rule through the REAL parser: interleaved filter / breakpoint commands with real texts, evaluated on real messages"""
-    n = case
-    from core import wl
-    w = ctl.make_world(ctx, 1, show_stub=True)
+    from core import wl, matcher
+    # case: n | (n, index of the -f text or None, index of the -b text or None): matchers given at start-up (`-f` / `-b`, built the way
+    # frontends.tui.arguments.parse_args builds them) are the first alternatives of the accumulation
+    n, f0, b0 = case if isinstance(case, tuple) else (case, None, None)
+    state = {'filter': ('const', True), 'breakpoint': ('const', False)}
+    init = {}
+    for which, k in (('filter', f0), ('breakpoint', b0)):
+        if k is not None:
+            init[which] = matcher.parse(REAL_TEXTS[k][0]).simplify()
+            state[which] = fold(('const', None), REAL_TEXTS[k])
+    w = ctl.make_world(ctx, 1, display=init.get('filter'), stop=init.get('breakpoint'), show_stub=True)
     try:
         msgs = {nm: wl.message.MockMessage(0.0, wl.object.MockObject(w.conns[0], 0.0, 5, 0, 'wl_x'), True, nm, ()) for nm in ('m1', 'm2', 'm3', 'm4', 'm5')}
-        state = {'filter': ('const', True), 'breakpoint': ('const', False)}
         for step_i in range(n):
             which = ctx.choose(['filter', 'breakpoint'], 'which%d' % step_i)
             text, A, X, star = ctx.choose(REAL_TEXTS, 'text%d' % step_i)
@@ -227,6 +234,13 @@ def real_sequences(ctx, case):
         ctl.restore_show()
 
 
+def startup_cases(tier):
+    """sequences that begin with matchers given on the command line (-f / -b)"""
+    good = [k for k, e in enumerate(REAL_TEXTS) if e[1] not in ('bad', None) and e[3] != 'explicit']
+    withneg = [k for k in good if REAL_TEXTS[k][2]]
+    return [(2 if tier == 'quick' else 3, f, b) for f in [None] + good for b in [None] + withneg[:1] if (f, b) != (None, None)]
+
+
 def twin(ctx, case):
     accumulate(ctx, case)
     ctx.check('reachability twin (must be violated)', False)
@@ -249,5 +263,5 @@ def obligations(tier):
                stubs=['matcher.parse replaced (trees shaped like the real parser\'s; `*`, `!` from the real parser)', 'abstract leaves'],
                outside='longer sequences (the rule is a fold, so length 3 exercises const->acc, acc->acc, acc->const, const->acc transitions); leaves with constant always()'),
             Ob('real-parser-sequences', 'symx', 'interleaved filter/breakpoint commands with real matcher texts through the real parser, both stored matchers evaluated on real messages after every step', FUNCS + ['core.matcher:parse'],
-               'all sequences of <= %d commands from 2 commands x %d texts; 5 message names' % (3 if tier == 'quick' else 4, len(REAL_TEXTS)), real_sequences, cases=[1, 2, 3] if tier == 'quick' else [1, 2, 3, 4]),
+               'all sequences of <= %d commands from 2 commands x %d texts, also after -f / -b matchers given at start-up; 5 message names' % (3 if tier == 'quick' else 4, len(REAL_TEXTS)), real_sequences, cases=([1, 2, 3] if tier == 'quick' else [1, 2, 3, 4]) + startup_cases(tier)),
             Ob('accumulate-reachable', 'symx', 'reachability twin', FUNCS, bounds, twin, cases=[('filter', ('a!x', 'a,b'))], expect_cex=True)]
